@@ -300,10 +300,10 @@ def run(ctx, proofs):
         "paths_walked_by_oracle": paths,
         "definitions_where_the_path_walk_stopped_at_its_cap_of_400_paths": capped,
         # rewritten after the second audit: the dominance half is no longer open
-        "open_statements": ["OPEN (third audit): `forall frontier children c c', Ssa.into_ssa frontier children c = SOk c' -> pre_ssa_ok c -> unversioned_reads_ok c' = true` - that the "
-                            "construction gives a version to EVERY read of a local, dimensions of declarations included (to be phrased over the re-issued declaration statements: the mirror leaves the table c_decls empty); SsaCheck.ssa_check (and the theorems about it) speak about "
-                            "versioned reads only and accept any unversioned read; evaluated per explored graph instead (validator condition unversioned_reads_ok + path-walk oracle)",
-                            "apart from that, none as a Coq statement: that the output of the construction is an erasure of its input with phis at block heads, unique definitions "
+        # proof round 4: the third audit's open statement (the construction gives a version to every read of a local; every
+        # version is listed by a re-issued Declaration statement) is closed: C14_construction_reads_of_locals_versioned,
+        # C14_construction_unversioned_reads_ok, C14_construction_versions_stmt_declared (Proofs.SsaUnvConstruction)
+        "open_statements": ["none as a Coq statement: that the output of the construction is an erasure of its input with phis at block heads, unique definitions "
                             "and unmixed keys (C14_construction_*) AND that every read names the running version on every path from the entry (the dominance "
                             "half, Cytron et al.'s theorem for this renaming scheme: C14_construction_paths_ok, C14_construction_read_defined_on_every_path) "
                             "are proved for ALL graphs, and C14_construction_paths_ok_on_computed_tables discharges the dominance hypotheses for the tables "
